@@ -10,6 +10,7 @@ import (
 	"github.com/xjslang/xjs/ast"
 	"github.com/xjslang/xjs/lexer"
 	"github.com/xjslang/xjs/parser"
+	"github.com/xjslang/xjs/token"
 	"pgregory.net/rapid"
 
 	"verif/harness/evid"
@@ -42,6 +43,11 @@ type c16Case struct {
 	// questions are asked at all (empty = at every invocation).  A plugin that
 	// asks only now and then must get the right answer too.
 	Query []bool `json:"query,omitempty"`
+	// Reentrant: the interceptors do not call next() but parse the construct
+	// themselves through the parser's exported functions (Parse*Statement for the
+	// current keyword; ParsePrefixExpression + ParseRemainingExpression), as the
+	// plugins of the repository's integration tests do.
+	Reentrant bool `json:"reentrant,omitempty"`
 }
 
 type c16Obs struct {
@@ -99,10 +105,52 @@ func c16Run(c c16Case, m Mode) (obs []c16Obs, final parser.ContextType, finalInF
 		}
 		pb.UseStatementInterceptor(func(p *parser.Parser, next func() ast.Statement) ast.Statement {
 			observe("stmt", p)
+			if c.Reentrant {
+				switch p.CurrentToken.Type {
+				case token.LET:
+					if s := p.ParseLetStatement(); s != nil {
+						return s
+					}
+					return nil
+				case token.FUNCTION:
+					if s := p.ParseFunctionStatement(); s != nil {
+						return s
+					}
+					return nil
+				case token.RETURN:
+					if s := p.ParseReturnStatement(); s != nil {
+						return s
+					}
+					return nil
+				case token.IF:
+					if s := p.ParseIfStatement(); s != nil {
+						return s
+					}
+					return nil
+				case token.WHILE:
+					if s := p.ParseWhileStatement(); s != nil {
+						return s
+					}
+					return nil
+				case token.FOR:
+					if s := p.ParseForStatement(); s != nil {
+						return s
+					}
+					return nil
+				case token.LBRACE:
+					if s := p.ParseBlockStatement(); s != nil {
+						return s
+					}
+					return nil
+				}
+			}
 			return next()
 		})
 		pb.UseExpressionInterceptor(func(p *parser.Parser, next func() ast.Expression) ast.Expression {
 			observe("expr", p)
+			if c.Reentrant {
+				return p.ParseRemainingExpression(p.ParsePrefixExpression())
+			}
 			return next()
 		})
 		p := pb.Build(src)
@@ -243,6 +291,10 @@ func c16Gen(t *rapid.T, rec *evid.Recorder) c16Case {
 		return c
 	}
 	c.Toks = c16Table(toks)
+	c.Reentrant = r.Intn(3, "reentrant") == 0
+	if c.Reentrant {
+		rec.Class("reentrant-interceptors")
+	}
 	if r.Bool("selective") {
 		for i, n := 0, 2+r.Intn(11, "qlen"); i < n; i++ {
 			c.Query = append(c.Query, r.Intn(4, "ask") == 0)
